@@ -97,7 +97,7 @@ func main() {
 	}
 	if *extra != "" {
 		for i, f := range strings.Split(*extra, ",") {
-			src, changed, err := rewrite(f, false, true, false)
+			src, changed, err := rewriteHook(f)
 			if err != nil {
 				fmt.Fprintf(os.Stderr, "vinstr: %s: %v\n", f, err)
 				os.Exit(2)
@@ -244,6 +244,42 @@ func rewrite(path string, doSync, doClock, doRand bool) ([]byte, bool, error) {
 		// keep the time import used
 		src = append(src, []byte("\nvar _ = "+timeName+".Second\n")...)
 	}
+	return src, true, nil
+}
+
+// rewriteHook handles files of other modules (module cache): they cannot import olla's internal shims,
+// so time.Now is redirected to an exported package variable VerifNow (default time.Now) that the
+// harness sets to the virtual clock.
+func rewriteHook(path string) ([]byte, bool, error) {
+	fset := token.NewFileSet()
+	file, err := parser.ParseFile(fset, path, nil, parser.ParseComments)
+	if err != nil {
+		return nil, false, err
+	}
+	n := 0
+	ast.Inspect(file, func(nd ast.Node) bool {
+		call, ok := nd.(*ast.CallExpr)
+		if !ok {
+			return true
+		}
+		sel, ok := call.Fun.(*ast.SelectorExpr)
+		if !ok {
+			return true
+		}
+		if id, ok := sel.X.(*ast.Ident); ok && id.Name == "time" && id.Obj == nil && sel.Sel.Name == "Now" {
+			call.Fun = ast.NewIdent("VerifNow")
+			n++
+		}
+		return true
+	})
+	if n == 0 {
+		return nil, false, nil
+	}
+	var buf bytes.Buffer
+	if err := format.Node(&buf, fset, file); err != nil {
+		return nil, false, err
+	}
+	src := append(buf.Bytes(), []byte("\n// VerifNow is the clock seam installed by the verification overlay.\nvar VerifNow = time.Now\n")...)
 	return src, true, nil
 }
 
